@@ -28,6 +28,8 @@ ASSUMPTIONS = [
     "noisy cases are compared only when the fitted interval holds >= 10 in-contact samples covering >= 50 % of "
     "the indentation depth (otherwise E and contact point trade off along a flat valley and two optimiser "
     "paths end at different points of it with equal chi-square; observed, counted as ill_conditioned_skip)",
+    "noise-free cases are compared only when the k = 1 fit recovered the generating modulus and contact point to "
+    "1e-3 (otherwise the interval / weighting leaves a flat valley; counted as reference_fit_not_converged_skip)",
     "initial modulus of the k-run is pre-scaled by k^-p so both optimisations start at corresponding points",
     "plateau-search cases start at the generating parameters (the scan's shallow sub-fits have a few in-contact "
     "points and a narrow convergence basin; a k-run was observed to end in a second minimum there while the "
@@ -139,6 +141,15 @@ def check_case(case, ctx):
         ctx.check(rel <= 50 * tol, "plateau-scan-differs", desc, f"max rel diff of E(delta)*k^p: {rel:.3e}")
         if abs(f1["optimal_fit_delta"] - fk["optimal_fit_delta"]) > 1e-9 * depth:
             ctx.event("plateau_flip")
+            return
+    if not sigma:
+        # exact data: the relation is asserted when the reference (k = 1) fit has found the generating parameters;
+        # otherwise the objective has a flat valley for this interval / weighting (e.g. weighting distance beyond
+        # the fitted depth) and two optimiser paths stop at different points of it with chi-square ~ 0
+        e_true = curve["params"]["E"]
+        if (abs(p1["E"].value / e_true - 1) > 1e-3
+                or abs(p1["contact_point"].value - curve["params"]["contact_point"]) > 1e-3 * depth):
+            ctx.event("reference_fit_not_converged_skip")
             return
     if sigma:
         # on noisy data the two optimisations agree only where the least-squares problem is
